@@ -2,7 +2,7 @@
 # usage: import_round.sh <round> <Cnn> : validates /tmp/seed<round>/Cnn/{a,r1,r2} on scratch copies and copies them to /verif/seeded/Cnn-<round>{a,r1,r2}
 set -u
 R="$1"; P="$2"
-for v in a b r1 r2; do
+for v in a b r1 r2 r3; do
   S=/tmp/seed$R/$P/$v
   [ -f $S/patch.diff ] || { echo "$P-$v MISSING"; continue; }
   T="$(mktemp -d /tmp/imp.XXXXXX)"
